@@ -56,6 +56,14 @@ class World:
                     raise RuntimeError("application listener failed")
 
         self.prot.discovery.watch_all_services(Raising())
+        # the wall clocks are the harness's: they stand still unless a letter says that time passes (the loop's clock is
+        # virtual anyway).  The comparison of two messages does not depend on how long ago the first one arrived
+        import time as _time
+        self._clock = [50000.0]
+        self._real_clocks = (_time.monotonic, _time.time, _time.perf_counter)
+        _time.monotonic = lambda: self._clock[0]
+        _time.perf_counter = lambda: self._clock[0]
+        _time.time = lambda: 1.79e9 + self._clock[0]
 
     def _spy(self, comp, addr):
         self.calls.append((comp, addr))
@@ -84,6 +92,16 @@ class World:
         ss.incoming.update(dict(state))
 
     def send(self, letter):
+        if letter[0] == "~":
+            # time passes (an hour, a day, a month): nothing else happens
+            self.calls.clear()
+            self.returns.clear()
+            self._clock[0] += {0: 3600.0, 1: 86400.0, 2: 31 * 86400.0}[letter[1]]
+            if not self.started:
+                self.loop.advance(3600.0)
+            self.loop.settle()
+            self.prot.transport.sent.clear()
+            return list(self.calls), list(self.returns), None
         if letter[0] == "@":
             # lifecycle of the receiving endpoint: start(), or stop() and start() again; what was received before
             # still is "the previous message" of each sender
@@ -134,12 +152,14 @@ class World:
         return list(self.calls), list(self.returns), exc
 
     def close(self):
+        import time as _time
+        _time.monotonic, _time.time, _time.perf_counter = self._real_clocks
         self.loop.dispose()
 
 
 def model_step(model: dict, letter):
     """reference rule, straight from the statement"""
-    if letter[0] == "@":
+    if letter[0] in ("@", "~"):
         return None, dict(model)
     sender, multicast, flag, sid = letter[:4]
     k = (sender, multicast)
@@ -242,7 +262,10 @@ def run_word(word, with_entry=False):
 def _search(ctx, name, alphabet, depth, with_entry, samples):
     init = ((), ())
     fn = functools.partial(expand, tuple(alphabet), with_entry)
-    res = explore.bfs([(init, init)], fn, depth, stride=0, chunksize=8)
+    # (the cap is far above the 8 k states of the largest search: an implementation whose record of a sender never
+    # repeats - e.g. because it holds a time - does not close; the search is cut and reported as capped)
+    res = explore.bfs([(init, init)], fn, depth, stride=0, chunksize=8, max_states=20_000_000 if ctx.thorough else 300_000,
+                      stop_if=core.unknown_violation_pred(ctx.prop))
     viols = []
     for path, v in res.violations:
         case = dict(search=name, word=[list(x) for x in path], with_entry=with_entry)
@@ -271,6 +294,8 @@ def check(ctx):
         # the messages carry different SOME/IP client ids (a sender whose client id changes, e.g. with a restart): only
         # the session id and the flag are compared
         ("one-sender-client-ids-closure", [l + (1, 0, 0, c) for l in letters("P", (0, 1)) for c in (0, 1, 2, 0xFFFF)], 10 ** 6, False),
+        # time passes between the messages of a sender (an hour, a day, a month on every clock there is)
+        ("one-sender-time-passes-closure", letters("P", (0, 1)) + [("~", 0, 0, 0), ("~", 1, 0, 0), ("~", 2, 0, 0)], 10 ** 6, False),
         # the receiving endpoint is started late, or stopped and started again, between messages
         ("one-sender-endpoint-lifecycle-closure", letters("P", (0, 1)) + [("@", 0, 0, 0)], 10 ** 6, False),
     ]
